@@ -14,6 +14,7 @@ from vlib.runner import Job
 from vlib.symex import Ob
 from vlib.symrandom import installed
 from vlib import genunits as U
+from vlib import genunits_cls as UC
 from vlib import families as F
 from vlib import pipeline as P
 from vlib.props.C11 import FixedRandom, members, fresh
@@ -167,6 +168,7 @@ def jobs(tier):
                            split_depth=6, functions=U.FUNCS[unit], stubs=U.STUBS, require_events=['unit:%s' % unit],
                            budget_s=2400, crosscheck_every=500,
                            bounds=U.unit_bounds(extra) + '; depth counter symbolic in 1..6, max_depth = 2', outside=OUT))
+    out += UC.jobs(ASPECT, tier, langs)
     from src import utils
     from src.generators.generator import Generator
     out.append(Job('identifier-pool-history', h_word_pool, dict(K=6 if tier == 'quick' else 8, lang='java'), split_depth=4,
